@@ -75,6 +75,8 @@ def totality(ctx, rep, rule, entries, reviewed, exempt_fns=(), trusted_fns=(), s
                 used.add(key)
                 rep.exempt(rep.pid + " | " + rule + " | " + key, why)
                 rep.ob(rule, key, True, "%s `%s` reviewed: %s" % (site.kind, site.desc, why), at)
+                if site.kind == "panic-call" and "assert" in site.detail:
+                    _check_assert_inventory(prog, rep, rule, fid, site, key, at)
                 continue
             pending.append((fid, site, key, at))
     # Sites whose exact key is not in the table.  Keys end in an ordinal among the sites of the same (function, kind,
@@ -682,3 +684,104 @@ def disjunct_relations(body, ir, bb):
             continue
         out.append(relation_of(ir.term_operand(cur, t["o"]), raw))
     return out
+
+
+# ------------------------------------------------------------------------------------------------------------
+# reviewed assert! sites: the asserted relation is frozen; strengthening it is a new way to panic
+def _shape(e, depth=0):
+    """rendering without local names: constants by name/value, fields, callee names, places as `_`"""
+    if not isinstance(e, tuple) or not e or depth > 7:
+        return "_"
+    k = e[0]
+    if k == "c":
+        nm = e[3] if len(e) > 3 and e[3] else None
+        return (nm.split("::")[-1] if nm else str(e[1]))
+    if k in ("var", "arg"):
+        return "_"
+    if k in ("ref", "deref", "unsize", "cast", "unwrapped"):
+        inner = e[2] if k == "ref" else (e[3] if k == "cast" else e[1])
+        return _shape(inner, depth)
+    if k == "field":
+        return _shape(e[1], depth + 1) + "." + str(e[2])
+    if k == "len":
+        return "len(" + _shape(e[1], depth + 1) + ")"
+    if k == "bin":
+        return "%s(%s,%s)" % (e[1], _shape(e[2], depth + 1), _shape(e[3], depth + 1))
+    if k == "un":
+        return "%s(%s)" % (e[1], _shape(e[2], depth + 1))
+    if k == "call":
+        return e[1].split("::")[-1] + "(" + ",".join(_shape(a, depth + 1) for a in e[2]) + ")"
+    if k in ("index", "cindex"):
+        return _shape(e[1], depth + 1) + "[]"
+    if k == "variant":
+        return _shape(e[1], depth + 1) + " as " + str(e[2])
+    if k == "discr":
+        return "discr(" + _shape(e[1], depth + 1) + ")"
+    return k
+
+
+def assert_shape(rel):
+    """canonical text of an asserted relation: operands ordered, operator flipped accordingly"""
+    if rel[0] == "bool":
+        return "%s is %s" % (_shape(rel[1]), rel[2])
+    a, op, b = _shape(rel[0]), rel[1], _shape(rel[2])
+    if b < a:
+        a, b, op = b, a, FLIP[op]
+    return "%s %s %s" % (a, SYM[op], b)
+
+
+_WEAKER = {("Lt", "Le"), ("Lt", "Ne"), ("Gt", "Ge"), ("Gt", "Ne"), ("Eq", "Le"), ("Eq", "Ge")}
+
+
+def relation_strengthened(old, new):
+    """old/new: canonical texts `A op B` with the same operands; True when `new` is not implied by `old`"""
+    if old == new:
+        return False
+    import re as _re
+    m1 = _re.match(r"^(.*) (<=|>=|==|!=|<|>) (.*)$", old)
+    m2 = _re.match(r"^(.*) (<=|>=|==|!=|<|>) (.*)$", new)
+    if not m1 or not m2 or (m1.group(1), m1.group(3)) != (m2.group(1), m2.group(3)):
+        return None         # different operands: cannot compare
+    inv = {v: k for k, v in SYM.items()}
+    o, n = inv[m1.group(2)], inv[m2.group(2)]
+    return (o, n) not in _WEAKER
+
+
+_ASSERT_IR = {}
+
+
+def current_assert_relation(prog, fid, site):
+    body = prog.bodies[fid]
+    ir = _ASSERT_IR.get(fid)
+    if ir is None:
+        ir = _IR(body)
+        _ASSERT_IR[fid] = ir
+    conds = ir.edge_conditions(site.bb)
+    if not conds:
+        return None
+    c, rel, v, edge, dty = conds[0]
+    tr = None
+    if rel == "==" and v in (0, 1):
+        tr = bool(v)
+    elif rel == "notin" and len(v) == 1 and v[0] in (0, 1):
+        tr = not bool(v[0])
+    if tr is None:
+        return None
+    return assert_shape(relation_of(c, not tr))
+
+
+def _check_assert_inventory(prog, rep, rule, fid, site, key, at):
+    """a reviewed assert! was reviewed with a particular relation; the table line does not cover a stronger one"""
+    from .tables import asserts as _asserts
+    want = _asserts.RELATIONS.get(key)
+    if want is None:
+        return
+    cur = current_assert_relation(prog, fid, site)
+    if cur is None or cur == want:
+        return
+    st = relation_strengthened(want, cur)
+    if st is False:
+        return          # weakened: fewer panics, nothing to report here
+    rep.ob(rule, key + " | asserted relation", False,
+           "the reviewed assert demanded `%s`; it now demands `%s`%s: the review does not cover the stronger condition (a value on the old boundary now panics)"
+           % (want, cur, "" if st else " (different operands)"), at)
